@@ -135,9 +135,20 @@ def run(ids: list[str], tier: str, also: list[str]) -> int:
             for pid in [meta["property"], *also]:
                 t0 = time.time()
                 env = dict(os.environ, VERIF_REPO=tmp,
-                           VERIF_CACHE=os.path.join(tmp, "cache"))
+                           VERIF_CACHE=os.path.join(tmp, "cache"),
+                           VERIF_OUT=os.path.join(tmp, "out"))
                 r = subprocess.run(["./check", pid, tier], cwd=VERIF, env=env,
                                    capture_output=True, text=True)
+                # keep the (shrunk) failing input of the property's own check
+                vdir = os.path.join(tmp, "out", "violations", pid)
+                if r.returncode == 1 and pid == meta["property"] \
+                        and os.path.isdir(vdir):
+                    files = sorted(
+                        (os.path.getsize(os.path.join(vdir, f)), f)
+                        for f in os.listdir(vdir) if f.endswith(".json"))
+                    if files and files[0][0] < 200_000:
+                        shutil.copy(os.path.join(vdir, files[0][1]),
+                                    os.path.join(d, "replay.json"))
                 first = [ln.strip() for ln in r.stdout.splitlines()
                          if ln.startswith("  ")]
                 det[f"{pid}/{tier}"] = {
